@@ -2,6 +2,7 @@
 Correspondence: Model.Cis.node_induced_connected_subgraphs ~
 fgutils.algorithm.subgraph_enumeration.node_induced_connected_subgraphs (list(generator) as a family of node sets)."""
 import itertools
+import random
 
 import networkx as nx
 
@@ -24,7 +25,12 @@ CORRESPONDENCE = ("Model.Cis.{node_induced_connected_subgraphs,nics_inner,enumer
                   "of the DAG itself are not checked. A yielded list is read at the moment it is yielded. The graph handed to the code "
                   "is rebuilt with a fresh object for every occurrence of an id (node key, adjacency key), and in ~85% of the cases "
                   "the anchor argument is a further fresh object: equal to the node but not identical with it wherever CPython "
-                  "allows (ints outside the small-int cache, strings of length >= 2, tuples); the harness asserts this. "
+                  "allows (ints outside the small-int cache, strings of length >= 2, tuples); the harness asserts this. In half of the "
+                  "cases the consumer is adversarial: right after copying a yielded list it edits the ORIGINAL in place (reverse / "
+                  "sort descending / clear / append or insert a foreign id / overwrite or delete elements) before asking for the next "
+                  "item, in the run with a DAG as well; the copies are what is judged. For adversarial cases with a DAG a third run "
+                  "additionally edits every `U` list stored in the DAG's node attributes between items and must yield what the "
+                  "polite run yields (runtime invariant, class dag_u_alias). "
                   "compared: list(generator) as a family of node sets with multiplicities (yields_equivb: the property does not fix the "
                   "order of the yields nor the order inside a yielded list), or the exception class. With the pinned code the "
                   "model also reproduces the exact order (yields_eqb held on all 31564 thorough-tier cases)")
@@ -43,6 +49,7 @@ RULE = ("quick: EVERY labelled simple graph on 1-4 nodes (all edge subsets, ids 
         "by ~40% of the integer re-identifications and by one extra variant of every atlas graph with <= 4 (thorough: <= 6) nodes "
         "x every anchor, so that equal ints are distinct objects; non-integer names have length >= 2. The anchor argument is a "
         "fresh equal object in ~85% of the cases and the graph's own node object in the rest (histogram class anchor_obj). "
+        "Half of the cases (chosen by the case index) are consumed adversarially (yielded lists edited in place between items). "
         "non-trivial = anchor is a node and at least 2 sets are yielded; distinct = distinct (node order, adjacency "
         "order, anchor, id naming)")
 TRUSTED = ["model of networkx.Graph (Base/NX.v: node and adjacency dict order; relabel_nodes, neighbors) - validated by the exact comparison",
@@ -248,7 +255,16 @@ def variants(rng, g, a, src, kinds):
 def generate(seed, tier, ncases=None):
     it = itertools.islice(_generate(seed, tier), ncases) if ncases else _generate(seed, tier)
     for i, c in enumerate(it):
-        yield _with_anchor_obj(seed, i, _with_dag(seed, i, _with_history(seed, i, c)))
+        yield _with_consumer(seed, i, _with_anchor_obj(seed, i, _with_dag(seed, i, _with_history(seed, i, c))))
+
+
+def _with_consumer(seed, i, c):
+    """Half of the cases are consumed adversarially; c["adv"] seeds the edits."""
+    rng = lib.rng_for(seed, ID + ":consumer", i)
+    if rng.random() < 0.5:
+        c = dict(c)
+        c["adv"] = rng.getrandbits(32)
+    return c
 
 
 def _with_anchor_obj(seed, i, c):
@@ -352,6 +368,19 @@ def corpus():
         c = mk(g, a, "corpus", "corpus")
         c["dag"] = True
         yield c
+        c = dict(c)
+        c["adv"] = 17 + a          # the same with an adversarial consumer
+        yield c
+    # ids 0..n-1 in node order, anchor 0 (the relabelling is the identity), adversarial consumers
+    for nodes, edges, a, adv in [([0, 1, 2], [(0, 1), (1, 2)], 0, 1), ([0, 1, 2, 3], [(0, 1), (0, 2), (0, 3), (1, 2), (1, 3), (2, 3)], 0, 2),
+                                 ([0, 1, 2, 3], [(0, 1), (1, 2), (2, 3), (3, 0)], 0, 3), ([0, 1, 2, 3, 4], [(0, 1), (0, 2), (1, 3), (2, 4), (3, 4)], 0, 4)]:
+        g = nx.Graph()
+        g.add_nodes_from(nodes)
+        for u, v in edges:
+            g.add_edge(u, v, bond=1)
+        c = mk(g, a, "corpus", "corpus")
+        c["adv"] = adv
+        yield c
     # ids below n with a negative one, anchor 0: the path -1 - 0 - 1, and 0 as the largest id
     for nodes, edges, a in [([-1, 0, 1], [(-1, 0), (0, 1)], 0), ([0, -2, -1], [(-2, -1), (-1, 0)], 0),
                             ([1, -1, 0, 2], [(-1, 0), (0, 1), (1, 2), (2, -1)], 0)]:
@@ -437,8 +466,54 @@ def snapshot(h):
             [(n, [(v, dict(dd)) for v, dd in h._adj[n].items()]) for n in h._adj])
 
 
-def run_once(c, with_dag):
-    """One call on a fresh copy of the case's graph. Every yielded list is read (copied) at the moment it is yielded."""
+EDIT_DAG_U_LISTS = True    # third run for adversarial cases with a DAG: also edit the U lists stored in the DAG
+
+
+def edit_list(rng, l, foreign):
+    """Destructively edit a list the generator handed out (or stored in the DAG)."""
+    if not isinstance(l, list):
+        return
+    k = rng.randrange(8)
+    if k == 0:
+        l.reverse()
+    elif k == 1:
+        l.sort(key=repr, reverse=True)
+    elif k == 2:
+        l.clear()
+    elif k == 3:
+        l.append(foreign)
+    elif k == 4:
+        l.insert(0, foreign)
+    elif k == 5:
+        for j in range(len(l)):
+            if rng.random() < 0.6:
+                l[j] = foreign if rng.random() < 0.5 else l[rng.randrange(len(l))]
+    elif k == 6:
+        if l:
+            del l[rng.randrange(len(l))]
+    else:
+        l.extend(list(l))
+        rng.shuffle(l)
+
+
+def consume(gen, rng, foreign, dag):
+    """list(gen), every item copied at the moment it is yielded. With an rng the consumer is adversarial: the original
+    of each item is edited in place before the next item is requested; with a dag as well, so is every `U` list the
+    generator stored in the DAG's node attributes."""
+    res = []
+    for sub in gen:
+        res.append(list(sub))
+        if rng is not None:
+            edit_list(rng, sub, foreign)
+            if dag is not None:
+                for _, d in list(dag.nodes(data=True)):
+                    edit_list(rng, d.get("U"), foreign)
+    return res
+
+
+def run_once(c, mode):
+    """One call on a fresh copy of the case's graph. mode: "plain" (no DAG), "dag" (DAG=nx.DiGraph()), "dagu" (with a DAG
+    whose stored U lists are edited too). The consumer is adversarial iff the case has c["adv"]."""
     h, fwd, back = named_graph(c)
     anchor, aclass = anchor_object(c, h, fwd)
     if c.get("hist"):
@@ -453,12 +528,15 @@ def run_once(c, with_dag):
         h.remove_edge(fresh(fwd(b1)), fresh(fwd(b2)))
         h.add_edge(fresh(fwd(a1)), fresh(fwd(a2)), **lab)
     before = snapshot(h)
+    rng = random.Random(c["adv"]) if c.get("adv") is not None else None
+    foreign = fwd(max([x for x in c["graph"].nodes] + [0]) + 1000) if c["names"] is None else ("foreign", "id")
     try:
-        if with_dag:
-            gen = node_induced_connected_subgraphs(h, anchor, DAG=nx.DiGraph())
+        if mode == "plain":
+            res = consume(node_induced_connected_subgraphs(h, anchor), rng, foreign, None)
         else:
-            gen = node_induced_connected_subgraphs(h, anchor)
-        res = [list(sub) for sub in gen]
+            dag = nx.DiGraph()
+            res = consume(node_induced_connected_subgraphs(h, anchor, DAG=dag), rng, foreign,
+                          dag if mode == "dagu" else None)
     except Exception as e:  # noqa
         return (type(e).__name__, str(e)[:200], snapshot(h) != before, aclass)
     mutated = snapshot(h) != before
@@ -471,9 +549,32 @@ def run_once(c, with_dag):
 
 def run_impl(c):
     """(status, yields | message, input mutated?, result of the additional run with DAG=nx.DiGraph() | None,
-    relation between the anchor argument and the graph's node object)"""
-    plain = run_once(c, False)
-    return plain[:3] + ((run_once(c, True)[:3] if c.get("dag") else None), plain[3])
+    relation between the anchor argument and the graph's node object,
+    result of the run with a DAG whose stored U lists are edited between items | None)"""
+    plain = run_once(c, "plain")
+    dag = run_once(c, "dag")[:3] if c.get("dag") else None
+    dagu = run_once(c, "dagu")[:3] if c.get("dag") and c.get("adv") is not None and EDIT_DAG_U_LISTS else None
+    return plain[:3] + (dag, plain[3], dagu)
+
+
+def known_witness_fails(k):
+    """Is a registered known finding still present? (class dag_u_alias: paw graph anchored at the pendant node, the U lists
+    stored in the DAG reversed after every item)"""
+    if k.get("class") != "dag_u_alias":
+        return False
+    g = nx.Graph()
+    g.add_edges_from([(0, 1), (1, 2), (2, 0), (2, 3)])
+    ref = [list(x) for x in node_induced_connected_subgraphs(g, 3)]
+    dag, got = nx.DiGraph(), []
+    try:
+        for x in node_induced_connected_subgraphs(g, 3, DAG=dag):
+            got.append(list(x))
+            for _, d in list(dag.nodes(data=True)):
+                if isinstance(d.get("U"), list):
+                    d["U"].reverse()
+    except Exception:  # noqa
+        return True
+    return got != ref
 
 
 def same_outcome(a, b):
@@ -487,6 +588,10 @@ def py_invariants(c, out):
     if out[3] is not None and not same_outcome(out, out[3]):
         msgs.append("the yields with DAG=nx.DiGraph() differ from the yields without DAG: %s"
                     % repr(out[3][1])[:300])
+    if len(out) > 5 and out[5] is not None and not same_outcome(out, out[5]):
+        msgs.append({"msg": "editing, between two items, the `U` lists that the generator stored in the node attributes of the "
+                            "DAG argument changes what is enumerated: %s %s" % (out[5][0], repr(out[5][1])[:300]),
+                     "known_class": "dag_u_alias"})
     return msgs
 
 
@@ -526,7 +631,7 @@ def _jname(x):
 
 def describe(c):
     return {"graph": ct.graph_py(c["graph"]), "anchor": c["anchor"], "scheme": c["scheme"], "src": c["src"],
-            "style": c["style"], "hist": c.get("hist"), "dag": bool(c.get("dag")), "same_obj": bool(c.get("same_obj")),
+            "style": c["style"], "hist": c.get("hist"), "dag": bool(c.get("dag")), "same_obj": bool(c.get("same_obj")), "adv": c.get("adv"),
             "names": None if c["names"] is None else [[k, _jname(v)] for k, v in c["names"].items()]}
 
 
@@ -536,7 +641,7 @@ def from_json(d):
         names = {k: (tuple(v) if isinstance(v, list) else v) for k, v in d["names"]}
     return {"graph": ct.graph_from_py(d["graph"]), "anchor": d["anchor"], "scheme": d["scheme"], "src": d["src"],
             "style": d.get("style"), "names": names, "hist": d.get("hist"), "dag": bool(d.get("dag")),
-            "same_obj": bool(d.get("same_obj"))}
+            "same_obj": bool(d.get("same_obj")), "adv": d.get("adv")}
 
 
 def describe_out(out):
@@ -546,6 +651,8 @@ def describe_out(out):
         d["with_DAG"] = describe_out(out[3])
     if len(out) > 4:
         d["anchor_object"] = out[4]
+    if len(out) > 5 and out[5] is not None:
+        d["with_DAG_U_lists_edited"] = describe_out(out[5][:3])
     return d
 
 
@@ -553,7 +660,7 @@ def key(c):
     g = c["graph"]
     names = None if c["names"] is None else tuple(repr(c["names"][n]) for n in g._node)
     return (tuple((n, tuple(g._adj[n])) for n in g._node), c["anchor"], names, repr(c.get("hist")), bool(c.get("dag")),
-            bool(c.get("same_obj")))
+            bool(c.get("same_obj")), c.get("adv"))
 
 
 def nontrivial(c, out):
@@ -569,6 +676,9 @@ def classes(c, out):
     yield "result=" + out[0]
     yield "dag=" + ("yes" if c.get("dag") else "no")
     yield "anchor_obj=" + out[4]
+    yield "consumer=" + ("adversarial" if c.get("adv") is not None else "polite")
+    if len(out) > 5 and out[5] is not None:
+        yield "dag_U_lists_edited=" + ("same_yields" if same_outcome(out, out[5]) else "different_yields")
     if c["names"] is None and c["anchor"] in g:
         yield "anchorid=" + ("0" if c["anchor"] == 0 else "n-1" if c["anchor"] == n - 1 else "other")
         if all(x < n for x in g.nodes) and any(x < 0 for x in g.nodes):
